@@ -229,9 +229,17 @@ async fn body(c: &Case, paused: bool) -> L2 {
   let sentinel_seq = u32::MAX - 1;
   let s2 = sender.clone();
   let stype_owned = stype.to_string();
+  let trace = std::env::var("VERIF_TRACE").is_ok();
+  if trace {
+    eprintln!("TRACE flood done: accepted {} refused {:?}", accepted.len(), refused);
+  }
   let sentinel_task = tokio::spawn(async move {
-    for _ in 0..2000 {
-      if s2.send_multipart(outgoing(&stype_owned, sentinel_seq, 64)).await.is_ok() {
+    for i in 0..2000 {
+      let r = s2.send_multipart(outgoing(&stype_owned, sentinel_seq, 64)).await;
+      if trace && (i < 3 || i % 500 == 0) {
+        eprintln!("TRACE sentinel try {} -> {:?}", i, r.as_ref().map_err(|e| e.to_string()));
+      }
+      if r.is_ok() {
         return true;
       }
       tokio::time::sleep(Duration::from_millis(5)).await;
@@ -461,7 +469,7 @@ fn run_paused<F: std::future::Future<Output = L2>>(ceiling_real: Duration, desc:
 }
 
 pub fn run(run: &mut Run) {
-  run.rule = "cases = sender/receiver pair in {PUSH->PULL, DEALER->DEALER, DEALER->ROUTER, ROUTER->DEALER} x transport (inproc on a paused clock, tcp/ipc on the real clock) x SNDHWM, RCVHWM in {1,2,10,100} x SNDTIMEO in {-1,0,1,20,100,500} x RCVTIMEO in {-1,0,1,20,100,500} x SNDBATCH/RCVBATCH_COUNT unset or 1..8 x 16/64 KiB messages x which side binds (the sender in 40%); first recv on an empty queue, then flood until the first refusal, then drain behind a sentinel; recv_timeout_under_peer_churn: a parked recv with RCVTIMEO in {100,250,400} ms on PULL/ROUTER/DEALER/SUB/REP while 2..8 silent peers connect (and every second one leaves again) 20..120 ms apart. Non-trivial = the flood reached a refusal (the queue really was full). Distinct = hash of the case".into();
+  run.rule = "cases = sender/receiver pair in {PUSH->PULL, DEALER->DEALER, DEALER->ROUTER, ROUTER->DEALER} x transport (inproc on a paused clock except DEALER senders, tcp/ipc on the real clock) x SNDHWM, RCVHWM in {1,2,10,100} x SNDTIMEO in {-1,0,1,20,100,500} x RCVTIMEO in {-1,0,1,20,100,500} x SNDBATCH/RCVBATCH_COUNT unset or 1..8 x 16/64 KiB messages x which side binds (the sender in 40%); first recv on an empty queue, then flood until the first refusal, then drain behind a sentinel; recv_timeout_under_peer_churn: a parked recv with RCVTIMEO in {100,250,400} ms on PULL/ROUTER/DEALER/SUB/REP while 2..8 silent peers connect (and every second one leaves again) 20..120 ms apart. Non-trivial = the flood reached a refusal (the queue really was full). Distinct = hash of the case".into();
   run.assumptions = vec![
     "bound on accepted messages = 3*(SNDHWM+RCVHWM) + 2*(SNDBATCH_COUNT + RCVBATCH_COUNT) (256 when unset) + kernel allowance (tcp/ipc: 8*64KiB/size + 8) + 64 - generous on purpose: the property names no constant, only boundedness by the HWMs plus a fixed allowance".into(),
     "real-clock slack: +600 ms on positive timeouts, 500 ms on zero (scheduling noise on a loaded machine; a timeout that is ignored or restarted overruns by far more); paused clock: exact (5-10 ms)".into(),
@@ -480,8 +488,15 @@ pub fn run(run: &mut Run) {
       0 => "sndtimeo_zero",
       _ => "sndtimeo_positive",
     });
-    let paused = c.transport == Transport::Inproc && !c.multi_thread;
+    // A DEALER's outgoing-queue processor re-queues and re-notifies itself for as long as every
+    // peer is full (it spins through tokio's cooperative budget). On a paused clock that keeps
+    // the runtime from ever being idle, so virtual time stops and any timer the case needs for
+    // progress never fires: DEALER senders are judged on the real clock.
+    let paused = c.transport == Transport::Inproc && !c.multi_thread && c.pair.0 != "DEALER";
     rec.label_if(paused, "paused_clock");
+    if !paused && std::env::var("VERIF_C14_DEBUG_PAUSED_ONLY").is_ok() {
+      return Ok(());
+    }
     let r = if paused {
       run_paused(Duration::from_secs(60), format!("{:?}", c), body(c, true))
     } else {
